@@ -372,3 +372,20 @@ Theorem baldwin_nform sc votes n : ranks_ok votes = true -> 1 <= n <= length (Kc
 Proof.
   intros Hr [H1 H2]. unfold baldwin. apply baldwin_loop_nform; [exact H1|exact Hr|apply incl_refl|exact H2|lia].
 Qed.
+
+(* ================================================================ positional selectors: RankedToPositionalVotes in front of plurality *)
+Lemma positional_keys sc votes : ranks_ok votes = true ->
+  exists d, positional sc votes = Some d /\ NoDup (map fst d) /\ (forall x, In x (map fst d) <-> In x (Kc votes)).
+Proof.
+  intros Hr. destruct (neg_scores_keys sc votes Hr) as (ns & E & N & K). unfold neg_scores in E.
+  destruct (positional sc votes) as [d|]; [|discriminate]. injection E as <-. exists d. split; [reflexivity|].
+  rewrite map_map in N, K. cbn [fst] in N, K. split; [exact N|exact K].
+Qed.
+
+(* Borda, Dowdall, ... = the positional scores handed to get_n_best: exactly n entries in normal form over the candidates *)
+Theorem positional_nform sc votes n : ranks_ok votes = true -> 1 <= n <= length (Kc votes) ->
+  exists d, positional sc votes = Some d /\ nform (Kc votes) n (get_n_best Qle_bool d n).
+Proof.
+  intros Hr Hn. destruct (positional_keys sc votes Hr) as (d & E & N & K). exists d. split; [exact E|].
+  apply (gnb_nform_perm Qle_bool Qle_bool_total Qle_bool_trans d (Kc votes) n Hn N (arc_nodup votes) K).
+Qed.
